@@ -171,8 +171,10 @@ class AirTouchSocket(Generic[comms.Hdr]):
             # Messages left over from before the socket was closed belong to
             # that session and must not be sent in this one.
             self._message_queue.clear()
-            self._schedule(self._connect())
+            # Mark the socket as open before the connection attempt is
+            # scheduled: with an eager task factory the attempt starts at once.
             self.is_open = True
+            self._schedule(self._connect())
 
     async def close(self) -> None:
         """Close the socket to the AirTouch."""
